@@ -211,6 +211,8 @@ pub fn run_lines<F: Fn(&Sexp) -> Sexp + std::panic::RefUnwindSafe>(f: F) {
             },
         };
         writeln!(out, "{}", res.to_text()).unwrap();
+        // flush per case: after a crash, abort or hang the first unanswered line is the culprit
+        out.flush().unwrap();
     }
     out.flush().unwrap();
 }
